@@ -1,6 +1,9 @@
 /- line-protocol driver for the C18 model (Mathlib-free) -/
 import Ipv8.Base.Proto
 import Ipv8.C18.Model
+import Ipv8.C18.Proto
+import Ipv8.C18.Range
+import Ipv8.C18.Ser
 open Ipv8 Ipv8.C18
 
 def getInts (ts : List String) : Option (List Int) := ts.mapM String.toInt?
@@ -12,35 +15,239 @@ def mkV : List Int → Option (FP2 Int × List Int)
 def showV (v : FP2 Int) : String :=
   s!"{v.a} {v.b} {v.c} {v.aC} {v.bC} {v.cC}"
 
-def step (_ : Unit) (toks : List String) : Unit × String :=
-  let r : Option String := do
-    match toks with
-    | op :: rest =>
-      let xs ← getInts rest
-      match op, xs with
-      | "modinv", [e, m] => some (toString (modinv e m))
-      | _, p :: vs =>
-        let (v, vs) ← mkV vs
+/-- FP2Value(p, a, b) -/
+def ab (p a b : Int) : FP2 Int := modP p { a := a, b := b, c := 0, aC := 1, bC := 0, cC := 0 }
+
+def intList? (s : String) : Option (List Int) := do
+  let items ← Proto.listItems? s
+  items.mapM String.toInt?
+
+def showIntList (l : List Int) : String := "[" ++ ",".intercalate (l.map toString) ++ "]"
+
+/-- `(v.wp_nominator() * v.wp_denom_inverse()).normalize()`: the canonical representative that is hashed -/
+def canonP (p : Int) (v : FP2 Int) : FP2 Int := normalizeP p (mulP p (wpNumP p v) (wpDenomInverseP p v))
+
+def coords (p : Int) (W : FP2 Int × FP2 Int) : List Int :=
+  let c1 := canonP p W.1
+  let c2 := canonP p W.2
+  [c1.a, c1.b, c2.a, c2.b]
+
+/-- Fiat–Shamir hash as a finite table (coordinates of the two canonical values ↦ sha256_as_int, computed by the
+    harness with hashlib); unknown queries hash to 0 -/
+def tableHash (p : Int) (table : List (List Int × Int)) (W1 W2 : FP2 Int) : Int :=
+  match table.find? (fun e => e.1 == coords p (W1, W2)) with
+  | some e => e.2
+  | none => 0
+
+def mkTable : List Int → List (List Int × Int)
+  | a :: b :: c :: d :: h :: rest => ([a, b, c, d], h) :: mkTable rest
+  | _ => []
+
+/-- sequential reader over a flat list of integers -/
+abbrev Rd := StateT (List Int) Option
+
+def rdInt : Rd Int := fun s => match s with | x :: r => some (x, r) | [] => none
+def rdV : Rd (FP2 Int) := fun s => mkV s
+def rdEL : Rd ELProof := do
+  let c ← rdInt; let d ← rdInt; let d1 ← rdInt; let d2 ← rdInt
+  pure ⟨c, d, d1, d2⟩
+def rdELRand : Rd ELRand := do
+  let w ← rdInt; let n1 ← rdInt; let n2 ← rdInt
+  pure ⟨w, n1, n2⟩
+def rdSQR : Rd (SQRProof (FP2 Int)) := do
+  let f ← rdV; let e ← rdEL
+  pure ⟨f, e⟩
+def rdCom : Rd (Commitment (FP2 Int)) := do
+  let c ← rdV; let c1 ← rdV; let c2 ← rdV; let ca ← rdV; let ca1 ← rdV; let ca2 ← rdV; let ca3 ← rdV; let caa ← rdV
+  pure ⟨c, c1, c2, ca, ca1, ca2, ca3, caa⟩
+def rdRest : Rd (List Int) := fun s => some (s, [])
+
+def showEL (e : ELProof) : String := s!"{e.c} {e.D} {e.D1} {e.D2}"
+def showInts (l : List Int) : String := " ".intercalate (l.map toString)
+
+def showPairs (bps : List (BitPair (FP2 Int))) : String :=
+  " ".intercalate (bps.map fun bp => s!"{showV bp.a} {showV bp.b} {showV bp.complement}")
+
+def showRat (q : Rat) : String := s!"{q.num}/{q.den}"
+
+def rcheck (xs : List Int) : Option String :=
+  (do
+    let p ← rdInt; let g ← rdV; let h ← rdV; let com ← rdCom; let el ← rdEL; let s1 ← rdSQR; let s2 ← rdSQR
+    let a ← rdInt; let b ← rdInt; let s ← rdInt; let t ← rdInt
+    let x ← rdInt; let y ← rdInt; let u ← rdInt; let v ← rdInt
+    let tbl ← rdRest
+    let o := fp2Ops p
+    let pd : RangePublic (FP2 Int) := ⟨com, el, s1, s2⟩
+    let res := rangeCheck o (tableHash p (mkTable tbl)) g h pd a b s t x y u v
+    let q1 := coords p (elCheckPre o el g h com.c1 h com.c2 com.ca)
+    let q2 := coords p (elCheckPre o s1.el com.ca h s1.F h s1.F com.caa)
+    let q3 := coords p (elCheckPre o s2.el g h s2.F h s2.F com.ca3)
+    pure s!"{res} {showInts (q1 ++ q2 ++ q3)}" : Rd String).run' xs
+
+def rcreate (xs : List Int) : Option String :=
+  (do
+    let p ← rdInt; let g ← rdV; let h ← rdV
+    let value ← rdInt; let a ← rdInt; let b ← rdInt
+    let r ← rdInt; let ra ← rdInt; let raa0 ← rdInt; let w ← rdInt
+    let m4 ← rdInt; let m1 ← rdInt; let r1 ← rdInt; let r2 ← rdInt
+    let el ← rdELRand; let sq1r2 ← rdInt; let sq1 ← rdELRand; let sq2r2 ← rdInt; let sq2 ← rdELRand
+    let tbl ← rdRest
+    let o := fp2Ops p
+    let rnd : RangeRand := ⟨r, ra, raa0, w, m4, m1, r1, r2, el, sq1r2, sq1, sq2r2, sq2⟩
+    match createAttestPair o (tableHash p (mkTable tbl)) g h value a b rnd with
+    | none => pure "none"
+    | some (pd, pv) =>
+      let cm := pd.com
+      let q1 := coords p (elCommit o g h cm.c1 h el)
+      let q2 := coords p (elCommit o cm.ca h pd.sqr1.F h sq1)
+      let q3 := coords p (elCommit o g h pd.sqr2.F h sq2)
+      let coms := " ".intercalate ([cm.c, cm.c1, cm.c2, cm.ca, cm.ca1, cm.ca2, cm.ca3, cm.caa].map showV)
+      pure s!"{coms} {showEL pd.el} {showV pd.sqr1.F} {showEL pd.sqr1.el} {showV pd.sqr2.F} {showEL pd.sqr2.el} {pv.m1} {pv.m2} {pv.m3} {pv.r1} {pv.r2} {pv.r3} {showInts (q1 ++ q2 ++ q3)}"
+    : Rd String).run' xs
+
+def natsOf (l : List Int) : List Nat := l.map Int.toNat
+
+def showBytes (b : ByteStr) : String := Proto.toHex b
+
+def protoStep (toks : List String) : Option String :=
+  match toks with
+  | ["attest", p, ga, gb, ha, hb, value, bitspace, draws, permR, perm2, tape] => do
+    let p ← p.toInt?; let ga ← ga.toInt?; let gb ← gb.toInt?; let ha ← ha.toInt?; let hb ← hb.toInt?
+    let value ← value.toNat?; let bitspace ← bitspace.toNat?
+    let draws ← Proto.natList? draws; let permR ← Proto.natList? permR
+    let perm2 ← Proto.natList? perm2; let tape ← Proto.natList? tape
+    let pk : PubKey (FP2 Int) := ⟨p.toNat, ab p ga gb, ab p ha hb⟩
+    match attest (fp2Ops p) pk value bitspace draws permR perm2 tape with
+    | none => some "none"
+    | some (bps, rest) => some s!"{rest.length} {showPairs bps}"
+  | ["chal", p, ga, gb, ha, hb, aa, ab', ba, bb, ca, cb, tape] => do
+    let p ← p.toInt?; let ga ← ga.toInt?; let gb ← gb.toInt?; let ha ← ha.toInt?; let hb ← hb.toInt?
+    let aa ← aa.toInt?; let ab' ← ab'.toInt?; let ba ← ba.toInt?; let bb ← bb.toInt?
+    let ca ← ca.toInt?; let cb ← cb.toInt?
+    let tape ← Proto.natList? tape
+    let pk : PubKey (FP2 Int) := ⟨p.toNat, ab p ga gb, ab p ha hb⟩
+    match createChallenge (fp2Ops p) pk ⟨ab p aa ab', ab p ba bb, ab p ca cb⟩ tape with
+    | none => some "none"
+    | some (c, rest) => some s!"{rest.length} {showV c}"
+  | ["resp", p, ga, gb, t1, ca, cb] => do
+    let p ← p.toInt?; let ga ← ga.toInt?; let gb ← gb.toInt?; let t1 ← t1.toNat?
+    let ca ← ca.toInt?; let cb ← cb.toInt?
+    let sk : PrivKey (FP2 Int) := { p := p.toNat, g := ab p ga gb, h := ab p 0 0, n := 0, t1 := t1 }
+    some (toString (respond (fp2Ops p) sk (ab p ca cb)))
+  | ["decode", p, ga, gb, t1, space, ca, cb] => do
+    let p ← p.toInt?; let ga ← ga.toInt?; let gb ← gb.toInt?; let t1 ← t1.toNat?
+    let space ← Proto.natList? space
+    let ca ← ca.toInt?; let cb ← cb.toInt?
+    let sk : PrivKey (FP2 Int) := { p := p.toNat, g := ab p ga gb, h := ab p 0 0, n := 0, t1 := t1 }
+    match decode (fp2Ops p) sk space (ab p ca cb) with
+    | some m => some (toString m)
+    | none => some "none"
+  | ["enc", p, ga, gb, ha, hb, m, tape] => do
+    let p ← p.toInt?; let ga ← ga.toInt?; let gb ← gb.toInt?; let ha ← ha.toInt?; let hb ← hb.toInt?
+    let m ← m.toNat?; let tape ← Proto.natList? tape
+    let pk : PubKey (FP2 Int) := ⟨p.toNat, ab p ga gb, ab p ha hb⟩
+    match encode (fp2Ops p) pk m tape with
+    | none => some "none"
+    | some (c, rest) => some s!"{rest.length} {showV c}"
+  | ["relmap", value, bitspace] => do
+    let value ← value.toNat?; let bitspace ← bitspace.toNat?
+    let r := binaryRelativity value bitspace
+    some s!"{r.c0} {r.c1} {r.c2} {r.c3}"
+  | ["agg", rs] => do
+    let rs ← Proto.natList? rs
+    let r := aggregate rs
+    some s!"{r.c0} {r.c1} {r.c2} {r.c3}"
+  | ["predict", value, bitspace, perm2, order] => do
+    -- responses the model predicts when the challenges at the (shuffled) positions `order` are answered
+    let value ← value.toNat?; let bitspace ← bitspace.toNat?
+    let perm2 ← Proto.natList? perm2; let order ← Proto.natList? order
+    let sums := applyPerm perm2 (pairSums (bitsOf value bitspace))
+    let rs := applyPerm order sums
+    let r := aggregate rs
+    some s!"{Proto.showNatList rs} {r.c0} {r.c1} {r.c2} {r.c3}"
+  | ["score", e0, e1, e2, e3, v0, v1, v2, v3] => do
+    let e0 ← e0.toNat?; let e1 ← e1.toNat?; let e2 ← e2.toNat?; let e3 ← e3.toNat?
+    let v0 ← v0.toNat?; let v1 ← v1.toNat?; let v2 ← v2.toNat?; let v3 ← v3.toNat?
+    let e : Rel := ⟨e0, e1, e2, e3⟩
+    let v : Rel := ⟨v0, v1, v2, v3⟩
+    some s!"{showRat (matchQ e v)} {showRat (certaintyQ e v)}"
+  | ["ipack", n] => do
+    let n ← n.toNat?
+    some (showBytes (ipack n))
+  | ["iunpack", hx] => do
+    let b ← Proto.ofHex? hx
+    match iunpack b with
+    | none => some "error"
+    | some (n, rest) => some s!"{n} {showBytes rest}"
+  | ["keyunser", hx] => do
+    let b ← Proto.ofHex? hx
+    match KeyInts.unserialize b with
+    | none => some "none"
+    | some (k, rest) => some s!"{k.p} {k.ga} {k.gb} {k.ha} {k.hb} {showBytes rest}"
+  | ["privunser", hx] => do
+    let b ← Proto.ofHex? hx
+    match privUnserialize b with
+    | none => some "none"
+    | some (k, n, t1) => some s!"{k.p} {k.ga} {k.gb} {k.ha} {k.hb} {n} {t1}"
+  | ["privser", p, ga, gb, ha, hb, n, t1] => do
+    let p ← p.toNat?; let ga ← ga.toNat?; let gb ← gb.toNat?; let ha ← ha.toNat?; let hb ← hb.toNat?
+    let n ← n.toNat?; let t1 ← t1.toNat?
+    some (showBytes (privSerialize ⟨p, ga, gb, ha, hb⟩ n t1))
+  | ["attser", p, ga, gb, ha, hb, flat] => do
+    let p ← p.toNat?; let ga ← ga.toNat?; let gb ← gb.toNat?; let ha ← ha.toNat?; let hb ← hb.toNat?
+    let flat ← Proto.natList? flat
+    let rec chunk (fuel : Nat) (l : List Nat) : List (List Nat) :=
+      match fuel with
+      | 0 => []
+      | f + 1 => if l.isEmpty then [] else l.take 6 :: chunk f (l.drop 6)
+    some (showBytes (attSerialize ⟨p, ga, gb, ha, hb⟩ (chunk flat.length flat)))
+  | ["attunser", hx] => do
+    let b ← Proto.ofHex? hx
+    match attUnserialize b with
+    | none => some "none"
+    | some (k, pairs) => some s!"{k.p} {k.ga} {k.gb} {k.ha} {k.hb} {Proto.showNatList pairs.flatten}"
+  | "rcheck" :: rest => do
+    let xs ← getInts rest
+    rcheck xs
+  | "rcreate" :: rest => do
+    let xs ← getInts rest
+    rcreate xs
+  | _ => none
+
+def arithStep (toks : List String) : Option String := do
+  match toks with
+  | op :: rest =>
+    let xs ← getInts rest
+    match op, xs with
+    | "modinv", [e, m] => some (toString (modinv e m))
+    | _, p :: vs =>
+      let (v, vs) ← mkV vs
+      match op with
+      | "inv" => some (showV (invP p v))
+      | "norm" => some (showV (normalizeP p v))
+      | "wpnum" => some (showV (wpNumP p v))
+      | "wpdi" => some (showV (wpDenomInverseP p v))
+      | "wpc" => some (match wpCompressP p v with | some r => showV r | none => "none")
+      | "pow" => match vs with
+        | [k] => some (showV (intpowP p v k))
+        | _ => none
+      | _ =>
+        let (w, _) ← mkV vs
         match op with
-        | "inv" => some (showV (invP p v))
-        | "norm" => some (showV (normalizeP p v))
-        | "wpnum" => some (showV (wpNumP p v))
-        | "wpdi" => some (showV (wpDenomInverseP p v))
-        | "wpc" => some (match wpCompressP p v with | some r => showV r | none => "none")
-        | "pow" => match vs with
-          | [k] => some (showV (intpowP p v k))
-          | _ => none
-        | _ =>
-          let (w, _) ← mkV vs
-          match op with
-          | "add" => some (showV (addP p v w))
-          | "sub" => some (showV (subP p v w))
-          | "mul" => some (showV (mulP p v w))
-          | "div" => some (showV (divP p v w))
-          | "eq" => some (toString (eqP p v w))
-          | _ => none
-      | _, _ => none
-    | [] => none
+        | "add" => some (showV (addP p v w))
+        | "sub" => some (showV (subP p v w))
+        | "mul" => some (showV (mulP p v w))
+        | "div" => some (showV (divP p v w))
+        | "eq" => some (toString (eqP p v w))
+        | _ => none
+    | _, _ => none
+  | [] => none
+
+def step (_ : Unit) (toks : List String) : Unit × String :=
+  let r : Option String :=
+    match protoStep toks with
+    | some s => some s
+    | none => arithStep toks
   ((), r.getD "bad-op")
 
 def main : IO Unit := Proto.run () step
